@@ -104,9 +104,9 @@ def load_merchant_rules(csv_path):
 
             rules.append((
                 parsed.regex_pattern,  # Pure regex for matching
-                row['Merchant'],
-                row['Category'],
-                row['Subcategory'],
+                (row['Merchant'] or '').strip(),
+                (row['Category'] or '').strip(),
+                (row['Subcategory'] or '').strip(),
                 parsed,  # Full parsed pattern with conditions
                 tags  # List of tags
             ))
